@@ -3,6 +3,7 @@ import AwsVerif.Proofs.C02.IterOnce
 import AwsVerif.Proofs.C02.IterPass
 import AwsVerif.Proofs.C02.TableEq
 import AwsVerif.Proofs.C02.Lookup3
+import AwsVerif.Proofs.C02.Lookup3Paths
 import AwsVerif.Proofs.C02.HashIC
 /-!
 # C02 — the hash table behaves as a map under any operation history
@@ -322,7 +323,7 @@ theorem c02_hashFor_consistent (h : Nat → Nat) (a b : Key) (hab : keysEq a b =
 equality callbacks (`aws_hash_callback_string_eq` / cursor equality = same bytes, `aws_hash_callback_c_str_eq` =
 same bytes up to the NUL) hash equally; results fit 64 bits; a NUL-free C string hashes like the same bytes as
 a string / cursor.  That the C function's 32-bit and 16-bit load paths compute this byte-wise function is
-checked by the correspondence run at all four alignments, not proved. -/
+`c02_hashlittle2_any_address` below. -/
 theorem c02_content_hash_consistent (a b : List UInt8) :
     (AwsVerif.Lookup3.bytesEq a b = true → AwsVerif.Lookup3.hashBytes a = AwsVerif.Lookup3.hashBytes b) ∧
     (AwsVerif.Lookup3.cstrEq a b = true → AwsVerif.Lookup3.hashCStr a = AwsVerif.Lookup3.hashCStr b) ∧
@@ -339,6 +340,45 @@ theorem c02_lookup3_known_answers :
     AwsVerif.Lookup3.hashlittle2 fourScore 0 0 = (0x17770551, 0xce7226e6) ∧
     AwsVerif.Lookup3.hashlittle2 fourScore 0 1 = (0xe3607cae, 0xbd371de4) ∧
     AwsVerif.Lookup3.hashlittle2 fourScore 1 0 = (0xcd628161, 0x6cbea4b3) := known_answers
+
+/-! ## the alignment paths of `hashlittle2` agree with the byte-wise definition
+
+`Gen/Lookup3Paths.lean` holds, extracted from lookup3.inl on every run, the adds of the block loop and of each
+`case` of the tail switch for the three code paths (32-bit loads with the tail masks `&0xff`, `&0xffff`,
+`&0xffffff`; 16-bit loads with their `<<16` assembly; byte loads).  `hashlittle2Path` interprets such a table on the
+memory that starts at the key pointer: `key ++ after`, where `after` (what lies behind the key, which the 32-bit
+path's masked word loads do read) is arbitrary. -/
+
+/-- the 32-bit-load path (key pointer 4-aligned): same `(pc, pb)` as the byte-wise function, for every key, every
+length, and every content of the memory behind the key -/
+theorem c02_hashlittle2_aligned32 (key after : List UInt8) (pc pb : UInt32) :
+    AwsVerif.Lookup3.hashlittle2Path Gen.l3Block32 Gen.l3Tail32 (key ++ after) key.length pc pb =
+      AwsVerif.Lookup3.hashlittle2 key pc pb := path32_eq key after pc pb
+
+/-- the 16-bit-load path (key pointer 2-aligned) -/
+theorem c02_hashlittle2_aligned16 (key after : List UInt8) (pc pb : UInt32) :
+    AwsVerif.Lookup3.hashlittle2Path Gen.l3Block16 Gen.l3Tail16 (key ++ after) key.length pc pb =
+      AwsVerif.Lookup3.hashlittle2 key pc pb := path16_eq key after pc pb
+
+/-- the byte-load path as written in the source is the byte-wise model -/
+theorem c02_hashlittle2_bytepath (key after : List UInt8) (pc pb : UInt32) :
+    AwsVerif.Lookup3.hashlittle2Path Gen.l3Block8 Gen.l3Tail8 (key ++ after) key.length pc pb =
+      AwsVerif.Lookup3.hashlittle2 key pc pb := path8_eq key after pc pb
+
+/-- `hashlittle2` as compiled (path chosen by `addr % 4`, `addr % 2`): a function of the key's bytes only — not of
+the address, not of the surrounding memory -/
+theorem c02_hashlittle2_any_address (addr : Nat) (key after : List UInt8) (pc pb : UInt32) :
+    AwsVerif.Lookup3.hashlittle2C addr (key ++ after) key.length pc pb = AwsVerif.Lookup3.hashlittle2 key pc pb :=
+  hashlittle2C_eq addr key after pc pb
+
+/-- non-vacuity: the masked word load of the 32-bit path really sees the byte behind a 7-byte key (so the masks
+matter), and the theorem's instance on that memory is a concrete equation -/
+example :
+    AwsVerif.Lookup3.load (fourScore.take 7 ++ [0xEE, 0x01, 0x02]) 4 4 ≠
+      AwsVerif.Lookup3.load (fourScore.take 7 ++ [0x00, 0x01, 0x02]) 4 4 ∧
+    AwsVerif.Lookup3.hashlittle2C 0 (fourScore.take 7 ++ [0xEE, 0x01, 0x02]) 7 5 9 =
+      AwsVerif.Lookup3.hashlittle2 (fourScore.take 7) 5 9 ∧
+    AwsVerif.Lookup3.hashlittle2C 2 (fourScore ++ [0xEE]) 30 0 0 = (0x17770551, 0xce7226e6) := by decide
 
 /-! ## the hypotheses are satisfiable by non-trivial states -/
 
